@@ -92,6 +92,10 @@ def simple(s):
         return t + ')'
     if k == 'none':
         return ':hover'
+    if k == 'amp':
+        return '&'
+    if k == 'custom':
+        return ':' + ident(st(s['name']))
     if k == 'lang':
         return ':lang(' + ', '.join(string(st(r)) for r in s['ranges']) + ')'
     if k == 'contains':
